@@ -429,6 +429,8 @@ def run(ctx):
     r5_split_sections(ctx, prog)
     r6_locking_mode(ctx, prog)
     r7_directory_and_index(ctx, prog)
+    from rules import c03
+    c03.r1_login(ctx, prog, rule_id='C18.R8')
 
 
 MUTANTS = [
